@@ -47,6 +47,8 @@ def par_jobs(ctx, quick):
     if quick:
         for i, (n, rounds) in enumerate([(2, 10), (3, 8), (5, 6), (8, 5), (8, 5), (6, 6)]):
             jobs.append(("hko", s + i, n, rounds))
+        jobs.append(("hko+p", s + 50, 10, 3))
+        jobs.append(("hk+p", s + 51, 10, 1))
     else:
         for i in range(24):
             jobs.append(("hko", s + i, [2, 3, 4, 5, 6, 8, 8, 7][i % 8], 10))
@@ -54,6 +56,12 @@ def par_jobs(ctx, quick):
             jobs.append(("hk", s + 100 + i, [2, 4, 5, 8][i % 4], 4))
         for i in range(12):
             jobs.append(("tsan", s + 200 + i, [2, 3, 5, 8, 8, 6][i % 6], 4))
+        for i in range(6):
+            jobs.append(("hko+p", s + 300 + i, 10, 5))
+        for i in range(3):
+            jobs.append(("hk+p", s + 320 + i, 10, 2))
+        for i in range(4):
+            jobs.append(("tsan+p", s + 340 + i, 10, 3))
     return jobs
 
 
@@ -62,11 +70,12 @@ TSAN_ENV = {"TSAN_OPTIONS": "halt_on_error=1:exitcode=66:report_signal_unsafe=0"
 
 def run_par(ctx, exe, variant, seed, n, rounds, tag):
     """solo run (one process per program) then the concurrent run (fresh process: first use is concurrent); one trace file"""
-    env = TSAN_ENV if variant == "tsan" else None
+    base, _, mode = variant.partition("+")          # "hko+p": pair mode (byte copies / arena neighbours), see harness/par.c
+    env = TSAN_ENV if base == "tsan" else None
     a = ctx.path("par_%s_solo.ndjson" % tag)
     b = ctx.path("par_%s_conc.ndjson" % tag)
-    rc1, err1 = vf.run_hx(exe, ["solo", seed, n, rounds], a, timeout=1700, env=env)
-    rc2, err2 = vf.run_hx(exe, ["conc", seed, n, rounds], b, timeout=1700, env=env)
+    rc1, err1 = vf.run_hx(exe, ["solo" + mode, seed, n, rounds], a, timeout=1700, env=env)
+    rc2, err2 = vf.run_hx(exe, ["conc" + mode, seed, n, rounds], b, timeout=1700, env=env)
     out = ctx.path("par_%s.ndjson" % tag)
     with open(out, "w") as f:
         f.write(open(a).read())
@@ -86,7 +95,7 @@ def judge_par(ctx, variant, seed, n, rounds, res, confirm_exe=None):
     if rc1 != 0:
         raise vf.Infra("hx_par solo run failed (%s seed %d): rc=%d %s" % (variant, seed, rc1, err1[-800:]))
     if rc2 != 0:
-        what = "ThreadSanitizer reported a data race" if (variant == "tsan" and rc2 == 66) else "the concurrent run aborted (sanitizer / assertion / crash)"
+        what = "ThreadSanitizer reported a data race" if (variant.startswith("tsan") and rc2 == 66) else "the concurrent run aborted (sanitizer / assertion / crash)"
         ctx.violation("%s: %s with %d threads each driving its own codec objects (seed %d, rc=%d): %s" % (variant, what, n, seed, rc2, err2[-2500:]), replay_text=txt)
         return
     nl = vf.count_lines(out)
@@ -202,18 +211,18 @@ def run(ctx):
     ctx.notes["exhaustive_scope"] = "model side: all program assignments and interleavings of 2 processes x <= 4 calls and 3 processes x <= %d calls; implementation side: symbol-level inventory of every object of libopus.a, OS-chosen schedules" % (2 if quick else 3)
     # 3. executions
     exes = {}
-    for v in sorted({j[0] for j in par_jobs(ctx, quick)}):
+    for v in sorted({j[0].partition("+")[0] for j in par_jobs(ctx, quick)}):
         var = vf.build_variant(v)
         exes[v] = vf.build_hx(var, "par.c")
     jobs = par_jobs(ctx, quick)
 
     def runp(j):
         v, seed, n, rounds = j
-        return j, run_par(ctx, exes[v], v, seed, n, rounds, "%s_%d" % (v, seed))
+        return j, run_par(ctx, exes[v.partition("+")[0]], v, seed, n, rounds, "%s_%d" % (v.replace("+", ""), seed))
     # (one concurrent run at a time per core budget: the runs themselves are multi-threaded)
     res = vf.parallel(runp, jobs, nproc=2 if quick else 3)
     for (v, seed, n, rounds), r in res:
-        judge_par(ctx, v, seed, n, rounds, r, confirm_exe=exes[v])
+        judge_par(ctx, v, seed, n, rounds, r, confirm_exe=exes[v.partition("+")[0]])
     ctx.notes["concurrent_runs"] = [dict(variant=j[0], seed=j[1], threads=j[2], rounds=j[3]) for j in jobs]
 
 
@@ -238,7 +247,7 @@ def replay(ctx):
     if not first or first[0] != "P" or len(first) < 5:
         raise vf.Infra("replay file must start with 'P <variant> <seed> <threads> <rounds>' or 'I'")
     v, seed, n, rounds = first[1], int(first[2]), int(first[3]), int(first[4])
-    var = vf.build_variant(v)
+    var = vf.build_variant(v.partition("+")[0])
     exe = vf.build_hx(var, "par.c")
     # a concurrent execution cannot be replayed exactly: run it several times
     for k in range(5):
